@@ -186,6 +186,16 @@ let predict (c : string) (obs : string) : string * string * bool =
             let k = (match arun_stuck [] evs O with Some k -> int_of_nat k | None -> -1) in
             (Printf.sprintf "model-rejects-event-%d" k, verdict spec_ok "ammo:object-not-exclusive", false)
       end
+  | ["cfg"; _; _; ninst; mda; mdb] ->
+      (* the effective reflect_metadata of each pool's guns is that pool's own section *)
+      let want = "A=" ^ render_md (parse_meta mda) ^ ";B=" ^ render_md (parse_meta mdb) in
+      let pre p = String.length obs >= String.length p && String.sub obs 0 (String.length p) = p in
+      let why =
+        if obs = want then ""
+        else if pre "race:" || pre "fatal:" then obs
+        else if pre "A=" then "cfg:gun-option-of-one-pool-seen-in-another"
+        else "cfg:" ^ (if String.length obs > 60 then String.sub obs 0 60 else obs) in
+      (want, verdict (obs = want) why, int_of_string ninst >= 1)
   | ["sched"; ninst; _; _] ->
       (* running a pool over a shared built-in schedule ends without a runtime fault *)
       let why = if obs = "hang" then "sched:engine-hang"
